@@ -596,7 +596,7 @@ func (db *DB) all(of Object) (out []Object, err error) {
 	var o Object
 	var it *iterator
 
-	if it, err = db.Iterator(of); err != nil {
+	if it, err = db.iterator(of); err != nil {
 		return
 	}
 
@@ -681,7 +681,7 @@ func (db *DB) searchAll(o Object, field, operator string, value interface{}, con
 			uuids = append(uuids, s.ObjectIndex.ObjectIds[c.ObjectId])
 		}
 		iter = newIterator(db, o, uuids)
-	} else if iter, err = db.Iterator(o); err != nil {
+	} else if iter, err = db.iterator(o); err != nil {
 		return &Search{db: db, err: err}
 	}
 
@@ -739,6 +739,12 @@ func (db *DB) Iterator(of Object) (it *iterator, err error) {
 	db.RLock()
 	defer db.RUnlock()
 
+	return db.iterator(of)
+}
+
+// iterator must be called with the lock held: callers already holding the
+// read lock must not take it again, a waiting writer would deadlock them
+func (db *DB) iterator(of Object) (it *iterator, err error) {
 	var s *Schema
 	var uuids []string
 
